@@ -3092,7 +3092,21 @@ func (dsc *dataStoreCommand) sort(sourceKeyName, byPattern, destKeyName string, 
 	}
 
 	dontSort := false
-	if byPattern != "" {
+	if byPattern == "" {
+		// without BY the elements themselves are the sort keys
+		for idx, val := range vals {
+			val.sortByStr = val.data
+			if !alpha {
+				f64, parseErr := strconv.ParseFloat(val.data, 64)
+				if parseErr != nil {
+					output.data = respErrorString("ERR One or more scores can't be converted into double")
+					return
+				}
+				val.sortByFloat = f64
+			}
+			vals[idx] = val
+		}
+	} else {
 		if !strings.Contains(byPattern, "*") {
 			dontSort = true
 		} else {
